@@ -113,14 +113,14 @@ pub fn enabled_with_commits(keys: &[Ev], shown: Option<&Rend>, extra: &[Ev]) -> 
 
 /// update-engine events for an idle phonetic context: the same configuration and every single flip of
 /// {English, suggestions, ANSI, smart quotes} of the current one
-fn idle_updates(cur: &Opts) -> Vec<Ev> {
+fn idle_updates(cur: &Opts, flips: usize) -> Vec<Ev> {
     let mut v = vec![Ev::Update(Box::new(cur.clone()))];
     // (a history that re-configured the context makes the search re-create it from scratch before the next history:
     // affordable with the fixture data only)
     if !cur.db.contains("fixtures") {
         return v;
     }
-    for i in 0..4 {
+    for i in 0..flips {
         let mut o = cur.clone();
         o.via_update = false;
         match i {
@@ -436,7 +436,7 @@ pub fn run(report: &Report, thorough: bool) -> Evidence {
                         // update-engine is in contract while idle: to the same configuration and to each single option flip
                         // of the current one (a learned state meets another option setting)
                         let _ = &same;
-                        extra.extend(idle_updates(&ctx.opts));
+                        extra.extend(idle_updates(&ctx.opts, if thorough { 4 } else { 2 }));
                     }
                     enabled_with_commits(&keys, shown, &extra)
                 },
@@ -502,7 +502,7 @@ pub fn run(report: &Report, thorough: bool) -> Evidence {
                 &prefixes,
                 if thorough { 3 } else { 2 },
                 |_h, shown, ctx| {
-                    let extra = if !ctx.ongoing() { idle_updates(&ctx.opts) } else { vec![] };
+                    let extra = if !ctx.ongoing() { idle_updates(&ctx.opts, 4) } else { vec![] };
                     enabled_with_commits(&keys, shown, &extra)
                 },
                 |ctx, step| {
